@@ -12,7 +12,13 @@
   R19.4 cumsum path       - for every shift: the coordinate state of the result just before re-attaching, computed
         from the lineage (rename / drop_vars / reset_coords / reset_index / padding semantics), holds no
         index coordinate of the abandoned position (under either name) and no non-index coordinate.
-Coordinate values/attributes and the name of the result are produced by xarray (not decided).
+  R19.5 name lineage      - xarray names the result of apply_ufunc after the (common) name of its array arguments, so the
+        input's name survives only if every array handed to xr.apply_ufunc is the caller's array carried through
+        DataArray methods: not re-wrapped in a new, unnamed DataArray and not renamed (apply path incl. the
+        boundary-chunk merge; necessary condition for "keeps the input's name"); Grid.cumsum likewise up to its return;
+  R19.6 keep_coords       - a multi-axis operation hands the caller's keep_coords to the ufunc of every axis (the last
+        call decides which coordinates the result carries).
+Coordinate values/attributes are produced by xarray (not decided); for the name only the lineage condition R19.5 is.
 """
 from __future__ import annotations
 
@@ -45,6 +51,8 @@ def check(ctx):
     _pass_through(ctx, P)
     _reattach(ctx, P)
     _strip(ctx, P)
+    _name_lineage(ctx, P)
+    _keep_coords_every_axis(ctx, P)
 
 
 def _pass_through(ctx, P):
@@ -274,3 +282,119 @@ def _strip(ctx, P):
                 ctx.report("R19.3", padfi, inst, bad)
             else:
                 ctx.ok("R19.3", inst, "no coordinate left on the array that is padded")
+
+
+NAME_LOSING = {"new-DataArray": "re-wrapped in a new, unnamed DataArray", "rename-name": "renamed", "to_dataset": "turned into a dataset"}
+
+
+def _name_loss(v, root):
+    """Why the array `v` no longer carries the name of the caller's array `root` (None if it does)."""
+    if not isinstance(v, Obj) or v.kind != "DataArray" or v.name != root:
+        return f"{v!r} is not the caller's array"
+    for e in v.eff:
+        if e[0] == "new-DataArray" and e[1] is not None and e[1] == Sym("name_of_" + root):
+            continue  # re-wrapped with name=<the array's own name>
+        if e[0] in NAME_LOSING:
+            return f"the array is {NAME_LOSING[e[0]]} on its way ({'.'.join(str(x[0]) for x in v.eff)})"
+        if e[0] == "rename" and len(e) > 1 and e[1] and not isinstance(e[1][0], dict):
+            return f"the array is renamed to {e[1][0]!r}"
+    return None
+
+
+def _name_lineage(ctx, P):
+    from .c06 import run_merge_all
+
+    fi = P.func("grid_ufunc:apply_as_grid_ufunc")
+    for name, sig, before in (("pad before", "(X:center)->(X:left)", True), ("pad after", "(X:center)->(X:outer)", False), ("two inputs", "(X:center),(X:center)->(X:left)", True)):
+        inst = f"arrays handed to xr.apply_ufunc, {name}"
+        two = sig.count("),(") == 1 and sig.index("),(") < sig.index("->")
+        try:
+            outs = run_apply(P, sig, [(AX,), (AX,)] if two else [(AX,)], boundary_width={"X": (1, 0)}, pad_before_func=before,
+                             args=(lambda: (make_da("da", [Sym("t"), dimsym("AX", "center")]), make_da("db", [Sym("t"), dimsym("AX", "center")]))) if two else None)
+        except Unmodelled as e:
+            ctx.unknown("R19.5", inst, str(e))
+            continue
+        bad, seen = None, 0
+        for o in outs:
+            for e in o.events:
+                if e[0] != "xr.apply_ufunc":
+                    continue
+                seen += 1
+                data = list(e[1][1:])
+                roots = ["da", "db"] if two else ["da"]
+                if len(data) != len(roots):
+                    bad = bad or f"{len(data)} array(s) reach xr.apply_ufunc for {len(roots)} input(s)"
+                    continue
+                for v, root in zip(data, roots):
+                    bad = bad or _name_loss(v, root)
+        if not seen:
+            ctx.unknown("R19.5", inst, "xr.apply_ufunc is never reached")
+        elif bad:
+            ctx.report("R19.5", fi, inst, bad + ": xarray names the result after its arguments, so the input's name is lost")
+        else:
+            ctx.ok("R19.5", inst, "the caller's arrays, carried through DataArray methods only")
+    inst = "arrays returned by the boundary-chunk merge"
+    try:
+        mfi, _dim, _chunks, outs = run_merge_all(P)
+        bad = None
+        for o in outs:
+            if o.kind != "return" or not isinstance(o.value, (list, tuple)) or len(o.value) != 2:
+                ctx.unknown("R19.5", inst, f"{o.kind} {o.value!r}")
+                break
+            for v, root in zip(o.value, ("pa", "pb")):
+                bad = bad or _name_loss(v, root)
+        else:
+            if bad:
+                ctx.report("R19.5", mfi, inst, bad + ": the merged array loses the name of the input, and with it the result of diff/interp/min/max on chunked data")
+            else:
+                ctx.ok("R19.5", inst, "the padded arrays themselves, re-chunked")
+    except Unmodelled as e:
+        ctx.unknown("R19.5", inst, str(e))
+    cfi = P.func("grid:Grid.cumsum")
+    for fr, to in (("center", "outer"), ("center", "left"), ("left", "center"), ("outer", "center")):
+        inst = f"cumsum {fr}->{to}: lineage of the result"
+        try:
+            outs = _run_cumsum(P, fr, to)
+        except Unmodelled as e:
+            ctx.unknown("R19.5", inst, str(e))
+            continue
+        bad = None
+        for o in outs:
+            if o.kind == "return":
+                bad = bad or _name_loss(o.value, "da")
+        if bad:
+            ctx.report("R19.5", cfi, inst, bad + ": the input's name is lost")
+        else:
+            ctx.ok("R19.5", inst, "the caller's array, carried through DataArray methods only")
+
+
+def _keep_coords_every_axis(ctx, P):
+    from ..harness import run_dispatch
+
+    fi = P.func("grid:Grid._1d_grid_ufunc_dispatch")
+    for axes in ((AX, AY), (AY, AX)):
+        inst = f"dispatch over {[str(a) for a in axes]}: keep_coords of every per-axis call"
+        try:
+            outs = run_dispatch(P, "diff", {"AX": "center", "AY": "center"}, "left", axnames=("AX", "AY"), axis_arg=list(axes))
+        except Unmodelled as e:
+            ctx.unknown("R19.6", inst, str(e))
+            continue
+        except TypeError as e:
+            ctx.unknown("R19.6", inst, f"harness: {e}")
+            continue
+        bad, n = None, 0
+        for o in outs:
+            if o.kind != "return":
+                continue
+            calls = [e for e in o.events if e[0] == "ufunc"]
+            n = max(n, len(calls))
+            for i, e in enumerate(calls):
+                kc = e[4].get("keep_coords") if isinstance(e[4], dict) else None
+                if kc != Sym("USER_KEEP"):
+                    bad = bad or f"the call for axis #{i + 1} gets keep_coords={kc!r} instead of the caller's value: the coordinates of the result are decided by the last call"
+        if n < 2:
+            ctx.unknown("R19.6", inst, f"{n} per-axis call(s) seen")
+        elif bad:
+            ctx.report("R19.6", fi, inst, bad)
+        else:
+            ctx.ok("R19.6", inst, "the caller's keep_coords on every axis")
